@@ -8,7 +8,7 @@ prop=$1; part=$2
 VERIF=$(cd "$(dirname "$0")/.." && pwd)
 H="$VERIF/harness"
 SEED="${VERIF_SEED:-1}"
-RUNS="${FG_FUZZ_RUNS:-60000}"
+RUNS="${FG_FUZZ_RUNS:-20000}"
 JOBS="${FG_FUZZ_JOBS:-16}"
 export CARGO_NET_OFFLINE=true
 export FG_VERIF_DIR="$VERIF"
